@@ -78,6 +78,55 @@ class ModelElement(ABC):
                                                    prop_name=ABCPropertyGraph.PROP_NAME,
                                                    prop_val=new_name)
 
+    def _check_name_unique(self, new_name: str):
+        """
+        Raise TopologyException when another element of the scope this element lives in already carries
+        new_name (the scopes the constructors check: nodes and links in the topology, components and network
+        services in their node or component - all services for a service without owner -, interfaces in
+        their network service or parent interface). Nothing is written before the check.
+        """
+        gm = self.topo.graph_model
+        labels, props = gm.get_node_properties(node_id=self.node_id)
+        clazz = labels[0]
+
+        def parents(rel, classes):
+            ret = list()
+            for c in classes:
+                ret.extend(gm.get_first_neighbor(node_id=self.node_id, rel=rel, node_label=c))
+            return ret
+        if clazz in (ABCPropertyGraph.CLASS_NetworkNode, ABCPropertyGraph.CLASS_Link):
+            siblings = gm.get_all_nodes_by_class(label=clazz)
+        elif clazz == ABCPropertyGraph.CLASS_Component:
+            siblings = [s for p in parents(ABCPropertyGraph.REL_HAS, (ABCPropertyGraph.CLASS_NetworkNode,
+                                                                       ABCPropertyGraph.CLASS_CompositeNode))
+                        for s in gm.get_first_neighbor(node_id=p, rel=ABCPropertyGraph.REL_HAS, node_label=clazz)]
+        elif clazz == ABCPropertyGraph.CLASS_NetworkService:
+            owners = parents(ABCPropertyGraph.REL_HAS, (ABCPropertyGraph.CLASS_NetworkNode,
+                                                        ABCPropertyGraph.CLASS_CompositeNode,
+                                                        ABCPropertyGraph.CLASS_Component))
+            if owners:
+                siblings = [s for p in owners
+                            for s in gm.get_first_neighbor(node_id=p, rel=ABCPropertyGraph.REL_HAS, node_label=clazz)]
+            else:
+                siblings = gm.get_all_nodes_by_class(label=clazz)
+        elif clazz == ABCPropertyGraph.CLASS_ConnectionPoint:
+            owners = parents(ABCPropertyGraph.REL_CONNECTS, (ABCPropertyGraph.CLASS_NetworkService,))
+            if props.get(ABCPropertyGraph.PROP_TYPE, None) == 'SubInterface':
+                for p in parents(ABCPropertyGraph.REL_CONNECTS, (ABCPropertyGraph.CLASS_ConnectionPoint,)):
+                    _, pprops = gm.get_node_properties(node_id=p)
+                    if pprops.get(ABCPropertyGraph.PROP_TYPE, None) != 'SubInterface':
+                        owners.append(p)
+            siblings = [s for p in owners
+                        for s in gm.get_first_neighbor(node_id=p, rel=ABCPropertyGraph.REL_CONNECTS, node_label=clazz)]
+        else:
+            siblings = list()
+        for s in siblings:
+            if s == self.node_id:
+                continue
+            _, sprops = gm.get_node_properties(node_id=s)
+            if sprops.get(ABCPropertyGraph.PROP_NAME, None) == new_name:
+                raise TopologyException(f'Name {new_name} is already used by another element in the same scope.')
+
     def unset_property(self, pname: str):
         """
         Unset a property
